@@ -136,9 +136,20 @@ def relevant(pid, rec, jf):
 def relevant_disagreement(pid, rec):
     return True
 
+CLASS_CODES = {"marker_tail": 1, "cache_realign": 2, "create_residue": 3}
+
+def governing_class(rec, j):
+    """class code the judge computed for the most recent new/open at or before op j"""
+    ops = [l for l in rec["h"]["lines"] if l and not l.startswith("#")]
+    for i in range(min(j, len(ops) - 1), -1, -1):
+        if opkind(ops[i]) in ("new", "open"):
+            return rec.get("classes", {}).get(i, 0)
+    return 0
+
 def known_match(k, rec, jf):
     m = k.get("match", {})
     c = context(rec, jf["op_index"])
+    if "class" in k and governing_class(rec, jf["op_index"]) != CLASS_CODES[k["class"]]: return False
     if "op" in m and not re.search(m["op"], jf["op"]): return False
     if "what" in m and not re.search(m["what"], jf["what"]): return False
     if "family" in m and rec["h"]["family"] not in m["family"]: return False
